@@ -68,16 +68,18 @@ class RecordLoop:
         return None
 
     def _find_atom_block(self):
-        """The ``if tag in tags:`` statement (record-type filter for atoms)."""
-        tags_param = 'tags' if 'tags' in self.params else None
+        """The ``if <record tag> in <parameter>:`` statement (record-type filter
+        for atoms); the parameter is remembered as ``tags_param``."""
         for stmt in self.loop.body:
             if isinstance(stmt, ast.If) and isinstance(stmt.test, ast.Compare) \
                     and isinstance(stmt.test.ops[0], ast.In) \
                     and any(isinstance(y, ast.Yield) for y in ast.walk(stmt)):
                 sl = self.slice_of(stmt.test.left)
-                if sl == (0, 6) and (tags_param is None or norm(stmt.test.comparators[0]) == tags_param):
+                rhs = stmt.test.comparators[0]
+                if sl == (0, 6) and isinstance(rhs, ast.Name) and rhs.id in self.params:
+                    self.tags_param = rhs.id
                     return stmt
-        raise AnalysisError('record loop: atom-record block (`if tag in tags`) not found')
+        raise AnalysisError('record loop: atom-record block (`if <tag> in <parameter>`) not found')
 
     def _state_vars(self):
         """Loop-carried variables: assigned before the loop and inside it."""
